@@ -12,6 +12,14 @@ Randomness is an explicit argument: a shuffle is the list `perm` such that
 `np.random.choice` is the index it drew in the candidate list, `np.argsort` of the importance
 scores is the order it returned (ties are broken by the sorting network of the installed NumPy).
 Scores are exact rationals.
+
+NOT modelled: how the Crystals scores are obtained from the prefitting model
+(`_get_torsions_and_laplacians`, premade_lib.py:1127-1168: per prefitting lattice
+`weights -= np.min(weights); weights /= np.max(weights)`, then `laplacian_regularizer` /
+`torsion_regularizer` per dimension / pair and `np.mean` over the lattices).  `crystals` takes the
+torsions and Laplacians as INPUTS, so the normalisation step — where a constant prefitting kernel
+is `0/0` (NaN scores, finding F-C17-b) — is outside this model and covered only by the
+`crystals_real` stream of `harness/props/c17.py`, which runs the real function un-patched.
 -/
 namespace Tfl.Ensembles
 open Tfl
@@ -121,10 +129,14 @@ def rtlSlots (inc unc : List Nat) (L r : Nat) (avoid : Bool) (perm1 perm2 : List
   if avoid then rtlSwapLoop L r fuel s else (s, false)
 
 /-- `_get_rtl_structure`: returns the sorted `(monotonicities, lattices)` items and whether the
-swap cap was hit. `inc` / `unc` are the group sizes of the two input keys. -/
+swap cap was hit. `inc` / `unc` are the group sizes of the two input keys.  A layer without any
+input passes the "too small" check (`0 ≤ total_usage`) and then divides by `len(rtl_inputs) = 0`
+(`1 + total_usage // len(rtl_inputs)`, rtl_layer.py:570): `ZeroDivisionError`, here `.error .other` —
+NOT the `0` of Lean's total division inside `tileTake`. -/
 def rtlStructure (inc unc : List Nat) (L r : Nat) (avoid : Bool) (perm1 perm2 : List Nat)
     (fuel : Nat := maxRtlSwaps + 1) : Except Err (Structure × Bool) :=
   if L * r < (rtlInputs inc unc).length then .error .valueError
+  else if (rtlInputs inc unc).length = 0 then .error .other
   else
     let p := rtlSlots inc unc L r avoid perm1 perm2 fuel
     .ok ((groupLattices (chunks r L p.1)).mergeSort (fun a b => lexLe a.1 b.1), p.2)
@@ -328,7 +340,8 @@ def maxCrystalsSwaps : Nat := 1000
 /-- `_get_final_crystal_lattices` given the prefitting scores: `t` torsions (n×n), `lap`
 laplacians, `order` = `np.argsort(-importance_scores)`, `emptyScore` =
 `np.mean(torsions) * rank**2 / 2` (the float the code computed, as an exact rational).
-Returns the lattices and whether the swap cap was hit. -/
+Returns the lattices and whether the swap cap was hit.  The scores are inputs: their computation
+from the prefitting kernels (normalisation included) is outside the model, see the file header. -/
 def crystals (n L r : Nat) (t : List (List Rat)) (lap : List Rat) (order : List Nat)
     (emptyScore : Rat) (fuel : Nat := maxCrystalsSwaps + 1) :
     Except Err (List (List Nat) × Bool) := do
